@@ -2,6 +2,7 @@
 //! records executions of the real API for validation by TLC (impl -> spec).
 mod c04;
 mod c08;
+mod c12;
 mod pdu;
 mod c13;
 mod c20;
@@ -20,6 +21,8 @@ fn main() {
         ("record", "c04") => c04::record(rest),
         ("replay", "c08") => c08::replay(rest),
         ("replay", "c20") => c20::replay(rest),
+        ("replay", "c12") => c12::replay(rest),
+        ("record", "c12") => c12::record(rest),
         ("replay", "c13") => c13::replay(rest),
         ("record", "c13") => c13::record(rest),
         (m, id) => {
